@@ -18,7 +18,19 @@ pub enum Case {
     Bundle { psk: Bytes, psk_id: Bytes },
     /// the receiver is set up from arbitrary encapsulated-key bytes / sender-key bytes, then opens
     /// arbitrary ciphertext bytes through every opening interface
-    Receiver { sess: Session, enc: Option<Bytes>, pk_s: Option<Bytes>, ct: Bytes, aad: Bytes, tag: Bytes },
+    Receiver {
+        sess: Session,
+        enc: Option<Bytes>,
+        pk_s: Option<Bytes>,
+        ct: Bytes,
+        aad: Bytes,
+        tag: Bytes,
+        /// when set (and the encapsulated key is honest): both contexts are placed at this sequence
+        /// position (hook) and one honest message is exchanged before the attacker's bytes arrive;
+        /// at 2^64-1 this leaves the receiver exhausted
+        #[serde(default)]
+        pos: Option<u64>,
+    },
     /// the sender is set up against arbitrary recipient-key bytes with long info/aad, then seals
     Sender { sess: Session, pk_r: Option<Bytes>, pt: Bytes, aad: Bytes },
     /// export of any length with any context
@@ -84,7 +96,7 @@ fn check_inner(case: &Case, obs: &mut Obs) -> Result<(), Verdict> {
             }
             Ok(())
         }
-        Case::Receiver { sess, enc, pk_s, ct, aad, tag } => {
+        Case::Receiver { sess, enc, pk_s, ct, aad, tag, pos } => {
             obs.label("entry:setup_receiver+open");
             labels_for(sess, obs);
             let d = dsuite(sess);
@@ -92,10 +104,14 @@ fn check_inner(case: &Case, obs: &mut Obs) -> Result<(), Verdict> {
             let nt = sess.suite.aead.nt();
             obs.label(if ct.len() < nt { "ct:shorter-than-tag" } else if ct.len() == nt { "ct:exactly-tag" } else { "ct:longer" });
             // honest encapsulation unless the case supplies attacker bytes
+            let mut honest_snd = None;
             let enc_bytes = match enc {
                 Some(e) => e.0.clone(),
                 None => match honest_sender(d, sess, &keys) {
-                    Ok((e, _)) => e,
+                    Ok((e, s)) => {
+                        honest_snd = Some(s);
+                        e
+                    }
                     Err(v) => return Err(v),
                 },
             };
@@ -110,6 +126,16 @@ fn check_inner(case: &Case, obs: &mut Obs) -> Result<(), Verdict> {
                 Err(f) => chk_fail("setup_receiver", &f, &[HpkeError::DecapError])?,
                 Ok(mut rcv) => {
                     obs.label("receiver-context-built");
+                    if let (Some(p), Some(snd), None) = (pos, honest_snd.as_mut(), pk_s) {
+                        snd.set_seq(*p);
+                        rcv.set_seq(*p);
+                        if let Ok(c) = snd.seal(b"honest message before the attack", b"") {
+                            let _ = no_panic("open", || rcv.open(&c, b""))?;
+                        }
+                        if rcv.seq_state().1 {
+                            obs.label("receiver-exhausted-before-attack");
+                        }
+                    }
                     obs.inner_checks += 2;
                     let r = no_panic("open", || rcv.open(ct, aad))?;
                     if let Err(e) = r {
@@ -240,7 +266,7 @@ impl Property for P {
     }
     fn rule(&self) -> String {
         "Generated, for every sealing suite x mode: arbitrary bytes into every from_bytes; PskBundle::new; setup_receiver with attacker-shaped encapsulated keys and sender keys (right length, real key with a flipped bit, arbitrary length, empty); open / open_in_place_detached / single_shot_open / single_shot_open_in_place_detached with ciphertexts of length 0, 1, Nt-1, Nt, Nt+1, block boundaries, 64 KiB+ (thorough: 1 MiB) and arbitrary tag bytes; setup_sender against attacker-shaped recipient keys with info/aad up to 64 KiB+; export lengths 0..=70000 with long contexts; derive_keypair with arbitrary ikm. \
-         Swept: every ciphertext length 0..=Nt+17 x 36 suites (mode rotating); every key length 0..=2*size+2 for all 16 types. \
+         Receivers are optionally placed at a sequence position (hook) and handed one honest message first, so that attacker bytes also reach an exhausted context; 10% of the sessions use the empty PSK bundle in a PSK mode. Swept: every ciphertext length 0..=Nt+17 x 36 suites (mode rotating) on a fresh and on a just-exhausted receiver, with the empty bundle for every 8th length; every key length 0..=2*size+2 for all 16 types. \
          Oracle: under catch_unwind, with debug assertions and overflow checks compiled in: no panic; errors only from the allowed set per entry point (deserialisers: IncorrectInputLength/ValidationError; setup_sender: EncapError; setup_receiver: DecapError; open: OpenError/MessageLimitReached; seal: SealError/MessageLimitReached; export: KdfOutputTooLong; PskBundle::new: InvalidPskBundle). \
          Non-trivial: inputs that get past the first length check plus the short/empty ciphertext class. Excluded: write_exact with a wrong-size buffer and export-only seal/open (documented caller-side panics)."
             .into()
@@ -262,13 +288,19 @@ impl Property for P {
                 6 => proptest::sample::select(vec![0usize, 1, 15, 16, 17, 31, 32, 33, 47, 48, 64, 65]).prop_flat_map(|l| (Just(l), 0u8..9, any::<u64>())).prop_map(|(l, k, s)| Bytes(gen::fill(l, k, s))),
                 3 => big_bytes(t),
             ];
-            (Just(sess), proptest::option::weighted(0.6, keyish(kem)), proptest::option::weighted(0.4, keyish(kem)), ct, big_bytes(t), prop_oneof![4 => gen::bytes_exact(16), 1 => gen::bytes(40)])
+            let pos = proptest::option::weighted(0.35, prop_oneof![2 => (0u64..3).prop_map(|d| u64::MAX - d), 1 => gen::position()]);
+            (Just(sess), proptest::option::weighted(0.5, keyish(kem)), proptest::option::weighted(0.3, keyish(kem)), ct, big_bytes(t), prop_oneof![4 => gen::bytes_exact(16), 1 => gen::bytes(40)], pos, prop::bool::weighted(0.1))
         })
-        .prop_map(|(mut sess, enc, pk_s, ct, aad, tag)| {
+        .prop_map(|(mut sess, enc, pk_s, ct, aad, tag, pos, empty_bundle)| {
             if pk_s.is_some() {
                 sess.mode |= 2;
             }
-            Case::Receiver { sess, enc, pk_s, ct, aad, tag }
+            if empty_bundle {
+                // the library accepts the empty bundle in PSK modes
+                sess.psk = Bytes::default();
+                sess.psk_id = Bytes::default();
+            }
+            Case::Receiver { sess, enc, pk_s, ct, aad, tag, pos }
         });
         let sender = gen::session_sealing()
             .prop_flat_map(move |sess| {
@@ -277,6 +309,10 @@ impl Property for P {
             })
             .prop_map(|(mut sess, pk_r, pt, aad, info)| {
                 sess.info = info;
+                if pt.len() % 10 == 3 {
+                    sess.psk = Bytes::default();
+                    sess.psk_id = Bytes::default();
+                }
                 Case::Sender { sess, pk_r, pt, aad }
             });
         let export = (gen::session_any(), big_bytes(tier), prop_oneof![3 => 0usize..=70_000, 1 => 0usize..400]).prop_map(|(sess, ctx, len)| Case::Export { sess, ctx, len });
@@ -291,7 +327,16 @@ impl Property for P {
         for (i, s) in Suite::sealing36().into_iter().enumerate() {
             for len in 0..=(16 + 17) {
                 let sess = gen::cell_session(s, ((i + len) % 4) as u8, 13);
-                cts.push(Case::Receiver { sess, enc: None, pk_s: None, ct: Bytes(gen::fill(len, 9, len as u64)), aad: Bytes(vec![]), tag: Bytes(gen::fill(16, 9, 1)) });
+                cts.push(Case::Receiver { sess: sess.clone(), enc: None, pk_s: None, ct: Bytes(gen::fill(len, 9, len as u64)), aad: Bytes(vec![]), tag: Bytes(gen::fill(16, 9, 1)), pos: None });
+                // the same on a receiver that has just been exhausted, and with the empty PSK bundle
+                cts.push(Case::Receiver { sess: sess.clone(), enc: None, pk_s: None, ct: Bytes(gen::fill(len, 9, len as u64)), aad: Bytes(vec![]), tag: Bytes(gen::fill(16, 9, 1)), pos: Some(u64::MAX) });
+                if len % 8 == 0 {
+                    let mut e = sess.clone();
+                    e.psk = Bytes::default();
+                    e.psk_id = Bytes::default();
+                    cts.push(Case::Receiver { sess: e.clone(), enc: None, pk_s: None, ct: Bytes(gen::fill(len, 9, len as u64)), aad: Bytes(vec![]), tag: Bytes(gen::fill(16, 9, 1)), pos: None });
+                    cts.push(Case::Sender { sess: e, pk_r: None, pt: Bytes(gen::fill(len, 9, 3)), aad: Bytes(vec![]) });
+                }
             }
         }
         let mut small = Vec::new();
@@ -299,8 +344,8 @@ impl Property for P {
             for mode in 0..4u8 {
                 let s = Suite { kem: KemId::X25519, kdf: KdfId::Sha256, aead: AeadId::SEALING[i % 3] };
                 let ct = Bytes(gen::fill(40, 9, i as u64));
-                small.push(Case::Receiver { sess: gen::cell_session(s, mode, 13), enc: Some(Bytes(u.to_vec())), pk_s: None, ct: ct.clone(), aad: Bytes(vec![]), tag: Bytes(gen::fill(16, 9, 2)) });
-                small.push(Case::Receiver { sess: gen::cell_session(s, mode | 2, 13), enc: None, pk_s: Some(Bytes(u.to_vec())), ct: ct.clone(), aad: Bytes(vec![]), tag: Bytes(gen::fill(16, 9, 2)) });
+                small.push(Case::Receiver { sess: gen::cell_session(s, mode, 13), enc: Some(Bytes(u.to_vec())), pk_s: None, ct: ct.clone(), aad: Bytes(vec![]), tag: Bytes(gen::fill(16, 9, 2)), pos: None });
+                small.push(Case::Receiver { sess: gen::cell_session(s, mode | 2, 13), enc: None, pk_s: Some(Bytes(u.to_vec())), ct: ct.clone(), aad: Bytes(vec![]), tag: Bytes(gen::fill(16, 9, 2)), pos: None });
                 small.push(Case::Sender { sess: gen::cell_session(s, mode, 13), pk_r: Some(Bytes(u.to_vec())), pt: Bytes(b"pt".to_vec()), aad: Bytes(vec![]) });
             }
         }
